@@ -191,6 +191,19 @@ ExactMsg(net, name, E, a, b, x) ==
   IN  IF Len(sub) = 0 THEN [v \in 1..DimOf(net, x) |-> GOne]
       ELSE MargOf([i \in DOMAIN sub |-> sub[i].t], <<x>>)
 
+(* --------------------------- region counting numbers -------------------- *)
+\* fam : sequence of [r |-> set of nodes, c |-> counting number]
+RegionNodes(fam) == UNION {fam[k].r : k \in DOMAIN fam}
+\* every node is counted once over all regions that contain it
+NodeBalanced(fam) ==
+  \A v \in RegionNodes(fam) : SumI(LAMBDA k : IF v \in fam[k].r THEN fam[k].c ELSE 0, 1, Len(fam)) = 1
+\* the counting number of a region is 1 minus the counting numbers of the regions that strictly contain it
+CountsRecursive(fam) ==
+  \A k \in DOMAIN fam :
+     fam[k].c = 1 - SumI(LAMBDA j : IF fam[k].r \subseteq fam[j].r /\ fam[k].r # fam[j].r THEN fam[j].c ELSE 0, 1, Len(fam))
+\* no region twice
+RegionsDistinct(fam) == \A j, k \in DOMAIN fam : fam[j].r = fam[k].r => j = k
+
 \* JSON helpers
 SeqToSet(s) == {s[k] : k \in DOMAIN s}
 PairsToSet(s) == {<<s[k][1], s[k][2]>> : k \in DOMAIN s}
